@@ -57,7 +57,7 @@ SITES = [
     ("S_global", RM, None, "compile_global_or_nonlocal", ("assign_elt", "names", 0), "s", "sym", None),
     ("S_match_as", RM, None, "compile_pattern", ("kw", "asty.MatchAs", "name", 0), "assignment", "sym", None),
     ("S_match_capture", RM, None, "compile_pattern", ("kw", "asty.MatchAs", "name", 1), "value", "sym", None),
-    ("S_match_star", RM, None, "compile_pattern", ("kw", "asty.MatchStar", "name", 0), "value[1]", "sym", None),
+    ("S_match_star", RM, None, "compile_pattern", ("kw_else", "asty.MatchStar", "name", 0), "value[1]", "sym", None),
     ("S_match_rest", RM, None, "compile_pattern", ("kw_body", "asty.MatchMapping", "rest", 0), "rest", "sym", None),
     ("S_match_class_kwd", RM, None, "compile_pattern", ("kw_elt", "asty.MatchClass", "kwd_attrs", 0), "kwd", "kw", None),
     ("S_except_name", RM, None, "compile_try_expression", ("assign", "name", 0), "name", "sym", None),
